@@ -266,7 +266,7 @@ Fixpoint gen_expr (sz : nat) (E : genv) (m : mode) (t : ty) (r : rng) {struct sz
       let la := gen_expr k E (sub_mode m) (TList ba) (ch r 1) in
       let lt := gen_expr k E (sub_mode m) (TList bt) (ch r 1) in
       let pick_first :=
-          if gTop E then leaf E m t r
+          if (gTop E || gNoIf E)%bool then leaf E m t r
           else if rb r 33 1 2 then EIf (EPrim (PLEmptyQ bt) [lt]) (gen_lit t (ch r 3)) (EPrim (PLFirst bt) [lt])
           else EIf (EPrim (PLEmptyQ bt) [lt]) (gen_lit t (ch r 3))
                    (EPrim (PLNth bt) [lt; EPrim (PAdd NMI) [EPrim (PMod NMI) [gen_expr k E (sub_mode m) TMI (ch r 4); EPrim (PLLen bt) [lt]];
@@ -346,9 +346,12 @@ Fixpoint gen_expr (sz : nat) (E : genv) (m : mode) (t : ty) (r : rng) {struct sz
           let o := rn r 3 6 in
           let l := gen_expr k E (sub_mode m) (TList b) (ch r 1) in
           if o <? 2 then EPrim (PLCons b) [gen_expr k E (sub_mode m) (ty_of_bty b) (ch r 2); l]
-          else if (o <? 3) && negb (gTop E) then EIf (EPrim (PLEmptyQ b) [l]) l (EPrim (PLRest b) [l])    (* guarded rest *)
+          else if (o <? 3) && negb (gTop E) && negb (gNoIf E) then EIf (EPrim (PLEmptyQ b) [l]) l (EPrim (PLRest b) [l])    (* guarded rest *)
           else if o <? 4 then EPrim (PLRev b) [l]
-          else EListLit b (map (fun i => gen_expr k E (sub_mode m) (ty_of_bty b) (ch r (Z.of_nat i + 5)))
+          else
+            (* no `if` inside a bracket: `[(if b then x else y)]` crashes at run time with the pinned
+               compiler (segmentation violation; reported as a finding)                           *)
+            EListLit b (map (fun i => gen_expr k (force_noif E) (sub_mode m) (ty_of_bty b) (ch r (Z.of_nat i + 5)))
                                (seq 0 (Z.to_nat (rn r 4 4))))
       end
     else if c <? 10 then
@@ -404,8 +407,9 @@ with gen_block (sz : nat) (E : genv) (vs : option ty) (n : nat) (r : rng) {struc
   end
 
 with gen_stmts (sz : nat) (E : genv) (vs : option ty) (r : rng) {struct sz} : list stmt :=
-  let asg_g := idx_where (fun d : ty * vkind => k_assignable (snd d)) 0 (gG E) in
-  let asg_l := idx_where (fun d : ty * vkind => k_assignable (snd d)) 0 (gL E) in
+  let asg_ok (d : ty * vkind) := (k_assignable (snd d) && (lists_ok E || negb (is_list (fst d))))%bool in
+  let asg_g := idx_where asg_ok 0 (gG E) in
+  let asg_l := idx_where asg_ok 0 (gL E) in
   let print1 (k : nat) :=
       let tys := if lists_ok E then val_types (gFe E) else filter (fun t => negb (is_list t)) (val_types (gFe E)) in
       let t1 := pick r 30 tys TMI in
@@ -452,6 +456,11 @@ with gen_stmts (sz : nat) (E : genv) (vs : option ty) (r : rng) {struct sz} : li
         else [SIf (gen_expr k (no_top_loop E) MAny TBool (ch r 2))
                   [if rb r 3 1 4 then SNever else SError (ELit (LStr (gen_str 2 (ch r 4))))] []]
       else simple k
+    else if (c =? 4) && gLoop E then
+      (* more loop exits: break / iterate under a generated condition *)
+      let j := if rb r 1 1 2 then SBreak else SIterate in
+      if fExit (gFe E) then [SExit (gen_expr k (no_top_loop E) MAny TBool (ch r 2)) j]
+      else if gNoIf E then [] else [SIf (gen_expr k (no_top_loop E) MAny TBool (ch r 2)) [j] []]
     else if c <? 4 then simple k
     else if c <? 7 then assign k
     else if (c <? 9) && gNoIf E then assign k
